@@ -11,6 +11,7 @@ at quiescent points, every cached inode / name cache / allocator with the logica
 complete API dumps of the running server with a cleanly restarted one and with one recovered
 from a copy of the raw image.
 -/
+import GoNfsd.Gen.Skeleton
 import GoNfsd.Lemmas.Codec
 import GoNfsd.Model.Txn
 import GoNfsd.Lemmas.AllocTxn
@@ -264,5 +265,16 @@ theorem cache_slot_stands_for_one_id (sz : Nat) (ids : List Nat) (i i' t : Nat)
 /-- non-vacuity: capacity 2, the least recently used id is evicted and gets a NEW slot later -/
 example : (GoNfsd.Model.Cache.run (GoNfsd.Model.Cache.mk 2) [7, 8, 7, 9, 8, 7]).2
     = [some 0, some 1, some 0, some 2, some 3, some 4] := by decide
+
+/-! ### the objects transactions hand to the journal (regenerated from alloctxn, inode, fstxn, dir, nfs, shrinker) -/
+
+/-- Every journal object the file-system layer reads or overwrites has the granularity of the
+    lock (or allocator number) that protects it: inode slots, whole blocks, and bitmap updates as
+    SINGLE BITS — so two transactions that commit concurrently never hand the journal overlapping
+    objects, and `allocators_agree_with_bitmaps_at_quiescence` is not undone when the journal
+    installs them.  (Seeded change C04j gathers bitmap updates per byte: the stale byte of one
+    transaction overwrites the bits of another.) -/
+theorem journal_objects_have_the_granularity_of_their_locks :
+    GoNfsd.Gen.Skeleton.journalObjects = GoNfsd.Model.Skeleton.journalObjectsExpected := by decide
 
 end GoNfsd.Props.C10
